@@ -2362,6 +2362,7 @@ func TestRcheckRoaring(t *testing.T) {
 	lap("phase D")
 	r.phaseSpecials()
 	r.rejectedImports()
+	r.truncatedOfficial()
 	r.shiftSpecials()
 	lap("specials")
 	r.phaseWide(nWide, stepsWide)
@@ -2437,6 +2438,57 @@ func (r *rkRun) rejectedImports() {
 			after := dst.Slice()
 			r.cmp(rkEq(before, after), []string{"C06", "C04"}, "rejected-import-changed-data", func() string {
 				return fmt.Sprintf("payload %d: the import was rejected (%v, changed=%d) but the bitmap went from %v to %v", pi, err, changed, before, after)
+			})
+		}
+	}
+	r.seq = nil
+}
+
+// truncatedOfficial (C06): official-format bytes whose declared container extents
+// reach past the end of the input must be rejected; if they are accepted, every later
+// read of the bitmap dereferences memory behind the buffer (behind the mapping, for a
+// mapped file), which the process cannot recover from.
+func (r *rkRun) truncatedOfficial() {
+	le := binary.LittleEndian
+	build := func(cookieRuns bool, card int, present int) []byte {
+		var buf []byte
+		b4 := make([]byte, 4)
+		b2 := make([]byte, 2)
+		if cookieRuns {
+			le.PutUint32(b4, 12347) // one container, run cookie, container 0 is NOT a run
+			buf = append(buf, b4...)
+			buf = append(buf, 0) // is-run bitset
+		} else {
+			le.PutUint32(b4, 12346)
+			buf = append(buf, b4...)
+			le.PutUint32(b4, 1)
+			buf = append(buf, b4...)
+		}
+		le.PutUint16(b2, 0)
+		buf = append(buf, b2...)
+		le.PutUint16(b2, uint16(card-1))
+		buf = append(buf, b2...)
+		if !cookieRuns {
+			le.PutUint32(b4, uint32(len(buf)+4))
+			buf = append(buf, b4...)
+		}
+		for i := 0; i < present; i++ {
+			le.PutUint16(b2, uint16(i*3))
+			buf = append(buf, b2...)
+		}
+		return append([]byte{}, buf...)
+	}
+	for _, runs := range []bool{false, true} {
+		for _, c := range [][2]int{{1000, 5}, {4096, 100}, {5000, 8}, {10, 9}} {
+			data := build(runs, c[0], c[1])
+			var err error
+			r.seq = []string{fmt.Sprintf("UnmarshalBinary(official bytes, run cookie %v, one container declaring %d values, %d present, %d bytes)", runs, c[0], c[1], len(data))}
+			bm := NewBitmap()
+			if !r.guard([]string{"C06"}, "truncated-official", func() { err = bm.UnmarshalBinary(data) }) {
+				continue
+			}
+			r.cmp(err != nil, []string{"C06"}, "truncated-official-accepted", func() string {
+				return fmt.Sprintf("a container declaring %d values with only %d present (%d input bytes) was accepted: its storage points past the input", c[0], c[1], len(data))
 			})
 		}
 	}
